@@ -241,19 +241,28 @@ func (b *Built) defineOpt(i int, g *getoptions.GetOpt) {
 	o := b.Cfg.Opts[i]
 	name := FromAtoms(o.Name)
 	fns := []getoptions.ModifyFn{}
-	fns = append(fns, aliasFns(g, &o)...)
+	// modifiers whose position among the others cannot matter (ValidValues -> SuggestedValues -> GetEnv keep their
+	// relative order: the environment value is checked against the valid values known at that moment)
+	free := []getoptions.ModifyFn{}
+	aliases := aliasFns(g, &o) // several Alias modifiers keep their order: it is the order the help lists the aliases in
+	if !o.ModLast {
+		free = append(free, aliases...)
+	}
 	if len(o.Desc) > 0 {
-		fns = append(fns, g.Description(FromAtoms(o.Desc)))
+		free = append(free, g.Description(FromAtoms(o.Desc)))
 	}
 	if len(o.ArgName) > 0 {
-		fns = append(fns, g.ArgName(FromAtoms(o.ArgName)))
+		free = append(free, g.ArgName(FromAtoms(o.ArgName)))
 	}
 	if o.Req {
 		if o.HasMsg {
-			fns = append(fns, g.Required(FromAtoms(o.ReqMsg)))
+			free = append(free, g.Required(FromAtoms(o.ReqMsg)))
 		} else {
-			fns = append(fns, g.Required())
+			free = append(free, g.Required())
 		}
+	}
+	if !o.ModLast {
+		fns = append(fns, free...)
 	}
 	if len(o.Valid) > 0 {
 		fns = append(fns, g.ValidValues(StringsOf(o.Valid)...))
@@ -271,10 +280,16 @@ func (b *Built) defineOpt(i int, g *getoptions.GetOpt) {
 	if o.SetCalled {
 		fns = append(fns, g.SetCalled(true))
 	}
+	if o.ModLast {
+		for k := len(free) - 1; k >= 0; k-- {
+			fns = append(fns, free[k])
+		}
+		fns = append(fns, aliases...)
+	}
 	switch o.Kind {
 	case "bool":
 		if o.UseVar {
-			var v bool
+			v := !o.DefB // whatever the variable held before, the definition puts the default there
 			g.BoolVar(&v, name, o.DefB, fns...)
 			b.Ptrs[i] = &v
 		} else {
@@ -282,7 +297,7 @@ func (b *Built) defineOpt(i int, g *getoptions.GetOpt) {
 		}
 	case "incr":
 		if o.UseVar {
-			var v int
+			v := 4242
 			g.IncrementVar(&v, name, o.DefI, fns...)
 			b.Ptrs[i] = &v
 		} else {
@@ -290,7 +305,7 @@ func (b *Built) defineOpt(i int, g *getoptions.GetOpt) {
 		}
 	case "string":
 		if o.UseVar {
-			var v string
+			v := "left over"
 			g.StringVar(&v, name, FromAtoms(o.DefT), fns...)
 			b.Ptrs[i] = &v
 		} else {
@@ -298,7 +313,7 @@ func (b *Built) defineOpt(i int, g *getoptions.GetOpt) {
 		}
 	case "sopt":
 		if o.UseVar {
-			var v string
+			v := "left over"
 			g.StringVarOptional(&v, name, FromAtoms(o.DefT), fns...)
 			b.Ptrs[i] = &v
 		} else {
@@ -306,7 +321,7 @@ func (b *Built) defineOpt(i int, g *getoptions.GetOpt) {
 		}
 	case "int":
 		if o.UseVar {
-			var v int
+			v := 4242
 			g.IntVar(&v, name, mustInt(o.DefT), fns...)
 			b.Ptrs[i] = &v
 		} else {
@@ -314,7 +329,7 @@ func (b *Built) defineOpt(i int, g *getoptions.GetOpt) {
 		}
 	case "iopt":
 		if o.UseVar {
-			var v int
+			v := 4242
 			g.IntVarOptional(&v, name, mustInt(o.DefT), fns...)
 			b.Ptrs[i] = &v
 		} else {
@@ -322,7 +337,7 @@ func (b *Built) defineOpt(i int, g *getoptions.GetOpt) {
 		}
 	case "float":
 		if o.UseVar {
-			var v float64
+			v := 42.42
 			g.Float64Var(&v, name, mustFloat(o.DefT), fns...)
 			b.Ptrs[i] = &v
 		} else {
@@ -330,7 +345,7 @@ func (b *Built) defineOpt(i int, g *getoptions.GetOpt) {
 		}
 	case "fopt":
 		if o.UseVar {
-			var v float64
+			v := 42.42
 			g.Float64VarOptional(&v, name, mustFloat(o.DefT), fns...)
 			b.Ptrs[i] = &v
 		} else {
